@@ -370,10 +370,43 @@ static void caseTol(Rng& r) {
   emitCase("tol", std::string(d) + " ; SetTolerance(eps/4) ; Simplify(t)", rq2.str(), ex2.str(), m2);
 }
 
+// ------------------------------------------------------------------ Manifold::Smooth(mesh): quads on low-valence meshes
+// Smooth() pairs nearly rectangular triangle pairs into quads (tangent w = -1 marks); on small solids a quad's interior
+// diagonal ends at a vertex with only three neighbours.  A refinement that divides no edge must hand back the same solid
+// (vertices, triangle count, volume, area); Refine(n) must give exactly n*n times the triangles of a positively oriented
+// solid whose original vertices are retained.
+static void caseSmoothQuads(Rng& r) {
+  MeshGL m; m.numProp = 3; char d[256]; const int kind = (int)r.below(3);
+  auto f = [](double x) { return (float)x; };
+  if (kind == 0) { const double h = 0.03 + 0.05 * r.below(6), a = 0.8 + 0.1 * r.below(5), b = 0.8 + 0.1 * r.below(5);   // thin wedge = flattened tetrahedron
+    m.vertProperties = {f(-a), 0, f(-h), f(a), 0, f(-h), 0, f(-b), f(h), 0, f(b), f(h)}; m.triVerts = {0, 1, 2, 1, 0, 3, 2, 3, 0, 3, 2, 1}; snprintf(d, sizeof d, "wedge(h=%g,a=%g,b=%g)", h, a, b); }
+  else if (kind == 1) { const double h = 0.05 + 0.05 * r.below(5), k = 0.2 + 0.1 * r.below(5);   // folded square plate closed by a keel
+    m.vertProperties = {0, 0, 0, 1, 0, 0, 0, 1, 0, 1, 1, f(h), f(1 / 3.0), f(1 / 3.0), f(-k)}; m.triVerts = {0, 1, 3, 0, 3, 2, 3, 1, 2, 4, 1, 0, 4, 2, 1, 4, 0, 2}; snprintf(d, sizeof d, "plate-keel(h=%g,d=%g)", h, k); }
+  else { const double h = 0.1 + 0.1 * r.below(5), w = 0.6 + 0.1 * r.below(6);   // bipyramid over a rectangle-ish quad: apexes of valence 4, rim of valence 4
+    m.vertProperties = {f(-1), f(-w), 0, 1, f(-w), 0, 1, f(w), 0, f(-1), f(w), 0, 0, 0, f(h), 0, 0, f(-h)}; m.triVerts = {0, 1, 4, 1, 2, 4, 2, 3, 4, 3, 0, 4, 1, 0, 5, 2, 1, 5, 3, 2, 5, 0, 3, 5}; snprintf(d, sizeof d, "bipyramid(h=%g,w=%g)", h, w); }
+  Manifold flat(m); if (flat.Status() != Manifold::Error::NoError || !(flat.Volume() > 0)) { gStats["smoothquads_bad_input"]++; return; }
+  Manifold a = Manifold::Smooth(m); if (a.Status() != Manifold::Error::NoError) { emitCase("smoothquads", std::string(d) + " ; Smooth", "", "", "Smooth(mesh) status " + std::to_string((int)a.Status())); return; }
+  MeshGL ga = a.GetMeshGL(); int quadMarks = 0; for (size_t i = 3; i < ga.halfedgeTangent.size(); i += 4) quadMarks += ga.halfedgeTangent[i] == -1; gStats["smoothquads_quadmarks"] += quadMarks;
+  Soup sa = soupOf(a);
+  const int op = (int)r.below(4); Manifold b; std::string what; std::string msg;
+  if (op == 0) { b = a.RefineToLength(100); what = "RefineToLength(100)"; } else if (op == 1) { b = a.RefineToTolerance(100); what = "RefineToTolerance(100)"; } else { b = a.Refine(op); what = "Refine(" + std::to_string(op) + ")"; }
+  Soup sb = soupOf(b); int miss = -1;
+  if (b.Status() != Manifold::Error::NoError) msg = "status " + std::to_string((int)b.Status());
+  else if (!subsetVerts(sa, sb, &miss)) msg = "original vertex " + std::to_string(miss) + " moved or lost";
+  else if (op <= 1 && (b.NumTri() != a.NumTri() || b.NumVert() != a.NumVert())) msg = "no edge was divided but the mesh changed: " + std::to_string(a.NumTri()) + " -> " + std::to_string(b.NumTri()) + " triangles, " + std::to_string(a.NumVert()) + " -> " + std::to_string(b.NumVert()) + " vertices";
+  else if (op <= 1 && (std::fabs(b.Volume() - a.Volume()) > 1e-9 * std::fabs(a.Volume()) || std::fabs(b.SurfaceArea() - a.SurfaceArea()) > 1e-9 * a.SurfaceArea())) msg = "no edge was divided but volume/area changed: volume " + std::to_string(a.Volume()) + " -> " + std::to_string(b.Volume());
+  else if (op >= 2 && b.NumTri() != (size_t)(op * op) * a.NumTri()) msg = "Refine(n) gave " + std::to_string(b.NumTri()) + " triangles, n*n times the input is " + std::to_string((size_t)(op * op) * a.NumTri());
+  else if (!(b.Volume() > 0)) msg = "result is not a positively oriented solid (volume " + std::to_string(b.Volume()) + ")";
+  if (msg.empty()) msg = tolInvariant(b);
+  std::string exp, req = b.IsEmpty() ? "" : checkmergeReq(b, exp);
+  emitCase("smoothquads", std::string(d) + " ; Smooth ; " + what, req, exp, msg);
+}
+
 int main(int argc, char** argv) {
   const int P = argc > 1 ? atoi(argv[1]) : 60;
   Rng r(hz::envSeed() * 7919 + 13);
   for (int i = 0; i < P; i++) {
+    if (i % 4 == 1) caseSmoothQuads(r);
     switch (i % 6) { case 0: caseSubdivide(r); break; case 1: caseRefine(r); break; case 2: caseSmooth(r); break; case 3: caseSimplify(r); break; case 4: caseTol(r); break; default: r.below(2) ? caseRefine(r) : caseSubdivide(r); }
     fflush(stdout);
   }
